@@ -54,6 +54,11 @@ def finding_matches(fd, prop, cls, clause, shape, model):
         return False
     if fd.get("clause") and fd["clause"] != clause:
         return False
+    if fd.get("clause_regex"):
+        import re
+
+        if not re.search(fd["clause_regex"], clause or ""):
+            return False
     sf = fd.get("shape")
     if sf and any(shape.get(k) != v for k, v in sf.items()):
         return False
@@ -61,6 +66,7 @@ def finding_matches(fd, prop, cls, clause, shape, model):
     if when:
         env = dict(model or {})
         env["shape"] = shape
+        env["model"] = dict(model or {})
         try:
             if not eval(when, {"__builtins__": {"abs": abs, "min": min, "max": max, "len": len, "any": any, "all": all}}, env):
                 return False
@@ -285,11 +291,15 @@ def check_property(prop, tier="quick", seed=0, only=None, verbose=False):
     for b in spec.get("bounded", []):
         if tier == "quick" and b.get("thorough_only"):
             continue
-        mod = importlib.import_module(b["module"])
+        try:
+            mod = importlib.import_module(b["module"])
+        except BaseException as e:
+            errors.append(dict(contract=b["fn"], error=f"bounded stand-in failed to import: {type(e).__name__}: {e}"))
+            continue
         t0 = time.time()
         try:
             br = getattr(mod, b["fn"])(tier=tier, seed=seed)
-        except Exception as e:
+        except BaseException as e:
             errors.append(dict(contract=b["fn"], error=f"bounded stand-in crashed: {type(e).__name__}: {e}"))
             continue
         br.update(function=b.get("function"), label="bounded (NOT proved)", secs=round(time.time() - t0, 2))
@@ -448,4 +458,14 @@ def main(argv=None):
 
 
 if __name__ == "__main__":
-    sys.exit(main())
+    try:
+        rc = main()
+    except SystemExit:
+        raise
+    except BaseException as e:  # a crash of the checker is never a violation
+        import traceback
+
+        print(f"CHECK-ERROR checker crashed: {type(e).__name__}: {str(e)[:300]}")
+        traceback.print_exc(limit=6, file=sys.stderr)
+        rc = 3
+    sys.exit(rc)
